@@ -535,6 +535,7 @@ theorem trade_rejected {I T} {st : State} {a : Nat} {e : Err} (he : tradeable st
     | claim _ => simp [isTradeBy] at hop
     | claimv _ => simp [isTradeBy] at hop
     | xfer _ _ _ => simp [isTradeBy] at hop
+    | chown _ _ => simp [isTradeBy] at hop
   rcases hex with h | h
   · obtain ⟨h1, h2 | h2⟩ := step_of_exec_err h
     · exact ⟨h1, by rw [h2]; exact hne⟩
@@ -542,8 +543,9 @@ theorem trade_rejected {I T} {st : State} {a : Nat} {e : Err} (he : tradeable st
   · obtain ⟨h1, h2 | h2⟩ := step_of_exec_err h <;> exact ⟨h1, by rw [h2]; decide⟩
 
 /-- **trade_gating (1)**: before the start time (or while trading is not enabled) nobody but the
-    rollapp owner (actor 0) can buy, buy-exact-spend or sell; the state is untouched. -/
-theorem trade_gating_before_start {I T} {st : State} {p : Plan} (hp : st.plan = some p) {a : Nat} (ha : a ≠ 0)
+    rollapp's CURRENT owner (`st.owner`; it changes with MsgTransferOwnership) can buy,
+    buy-exact-spend or sell; the state is untouched. -/
+theorem trade_gating_before_start {I T} {st : State} {p : Plan} (hp : st.plan = some p) {a : Nat} (ha : a ≠ st.owner)
     (hpre : p.enabled = false ∨ st.now < p.startTime) (op : Op) (hop : isTradeBy a op = true) :
     (step I T st op).1 = st ∧ (step I T st op).2 ≠ .ok := by
   have : ∃ e, tradeable st a = .error e ∧ e ≠ .ok := by
@@ -629,9 +631,9 @@ theorem vesting_bounded {I T cfg st} (h : Reach I T cfg st) (p : Plan) (hp : st.
   have := (vestedBy_bounds p.vest st.now h1 h4).2
   exact ⟨h2, by omega, (hi.post p hp hs).2.2.2.1⟩
 
-/-- only the rollapp owner (actor 0) can claim vested liquidity, and only after settlement -/
+/-- only the rollapp's CURRENT owner can claim vested liquidity, and only after settlement -/
 theorem vesting_only_owner {I T} {st : State} (a : Nat)
-    (h : a ≠ 0 ∨ ∀ p, st.plan = some p → p.settled = false) :
+    (h : a ≠ st.owner ∨ ∀ p, st.plan = some p → p.settled = false) :
     (step I T st (.claimv a)).1 = st ∧ (step I T st (.claimv a)).2 ≠ .ok := by
   have hex : ∃ e, exec I T st (.claimv a) = .error e ∧ e ≠ .ok := by
     simp only [exec, doClaimVested]
@@ -651,6 +653,76 @@ theorem vesting_only_owner {I T} {st : State} (a : Nat)
 
 example : (step demoI demoT (run demoI demoT (init demoCfg) demoSettled) (.claimv 1)).2 = .denied ∧
     (step demoI demoT (run demoI demoT (init demoCfg) demoSettled) (.claimv 0)).2 = .ok := by decide
+
+/-- a successful vesting claim is made by the current owner, pays exactly what is booked as claimed,
+    out of the plan account, and touches nobody else's liquidity -/
+theorem claimv_pays_current_owner {I T} {st st' : State} {a : Nat} (h : exec I T st (.claimv a) = .ok st') :
+    a = st.owner ∧ st'.owner = st.owner ∧
+    ∃ p p', st.plan = some p ∧ st'.plan = some p' ∧ 0 < p'.vest.claimed - p.vest.claimed ∧
+      st'.liq a = st.liq a + (p'.vest.claimed - p.vest.claimed) ∧
+      st'.planLiq = st.planLiq - (p'.vest.claimed - p.vest.claimed) ∧
+      ∀ j, j ≠ a → st'.liq j = st.liq j := by
+  obtain ⟨p, amt, hp, _, ha, _, hpos, _, rfl⟩ := doClaimVested_ok h
+  refine ⟨ha, rfl, p, _, hp, rfl, ?_, ?_, ?_, ?_⟩
+  · simp only []; omega
+  · simp [upd]
+  · simp only []; omega
+  · intro j hj; simp [upd, hj]
+
+/-! ## the rollapp owner can change (x/rollapp MsgTransferOwnership)
+
+  The owner is re-read from the rollapp on every message (`GetTradeableIRO`, `EnableTrading`,
+  `ClaimVested`, `CreatePlan`, the taker-fee beneficiary): `State.owner`, changed by `Op.chown`.
+  Every theorem of this file quantifies over histories WITH ownership transfers (`Reach` ranges over
+  all op lists): the invariants, solvency, `vesting_bounded` (the total released to ALL successive
+  owners never exceeds the vesting amount, and the plan account holds exactly the unreleased rest)
+  and `vesting_not_faster_than_linear` (cumulative over owners). -/
+
+/-- only the current owner can hand the rollapp over, and not to himself -/
+theorem chown_only_owner {I T} {st : State} (a b : Nat) (h : a ≠ st.owner ∨ b = st.owner) :
+    (step I T st (.chown a b)).1 = st ∧ (step I T st (.chown a b)).2 ≠ .ok := by
+  have hex : ∃ e, exec I T st (.chown a b) = .error e ∧ e ≠ .ok := by
+    simp only [exec, doChown]
+    by_cases ha : a = st.owner
+    · rcases h with h | h
+      · exact absurd ha h
+      · exact ⟨.rej, by simp [ha, h], by decide⟩
+    · exact ⟨.denied, by simp [ha], by decide⟩
+  obtain ⟨e, he, hne⟩ := hex
+  obtain ⟨h1, h2 | h2⟩ := step_of_exec_err he
+  · exact ⟨h1, by rw [h2]; exact hne⟩
+  · exact ⟨h1, by rw [h2]; decide⟩
+
+/-- an executed transfer changes the owner and nothing else; from then on the FORMER owner is an
+    ordinary trader: gated before the start like everybody else, and refused by claim-vested -/
+theorem chown_hands_over {I T} {st st' : State} {a b : Nat} (h : exec I T st (.chown a b) = .ok st') :
+    a = st.owner ∧ st'.owner = b ∧ b ≠ a ∧ st' = { st with owner := b } ∧
+    (∀ p, st'.plan = some p → (p.enabled = false ∨ st'.now < p.startTime) → ∀ op, isTradeBy a op = true →
+      (step I T st' op).1 = st' ∧ (step I T st' op).2 ≠ .ok) ∧
+    ((step I T st' (.claimv a)).1 = st' ∧ (step I T st' (.claimv a)).2 ≠ .ok) := by
+  obtain ⟨ha, hb, rfl⟩ := doChown_ok h
+  have hne : a ≠ b := by rw [ha]; exact fun e => hb e.symm
+  refine ⟨ha, rfl, fun e => hne e.symm, rfl, ?_, ?_⟩
+  · intro p hp hpre op hop
+    exact trade_gating_before_start (st := { st with owner := b }) hp (by simpa using hne) hpre op hop
+  · exact vesting_only_owner (st := { st with owner := b }) a (Or.inl (by simpa using hne))
+
+/-- the rollapp is handed to a2 before the start (plan starts at 60, now is 0): the former owner a0 is
+    gated like any trader, a2 trades; after settlement a2 — not a0 — claims the vested liquidity, and
+    the taker fee's beneficiary is re-read as well -/
+example :
+    let st := run demoI demoT (init demoCfg) [.fund 0 1000000000000000000000, .fund 2 1000000000000000000000,
+      .create 1000000000000000000000 0 1000000000000000000 1000000000000000000 18 true 60 3600 ⟨500000000000000000⟩ 3 0,
+      .chown 0 2]
+    st.owner = 2 ∧ (step demoI demoT st (.chown 0 1)).2 = .denied ∧ (step demoI demoT st (.chown 2 2)).2 = .rej ∧
+    (step demoI demoT st (.buy 0 1000000000000000000 1000000000000000000000)).2 = .notStarted ∧
+    (step demoI demoT st (.buy 2 1000000000000000000 1000000000000000000000)).2 = .ok ∧
+    (let st2 := run demoI demoT st [.buy 2 5000000000000000000 1000000000000000000000, .settle 1000000000000000000000 true, .time 2]
+     (step demoI demoT st2 (.claimv 0)).2 = .denied ∧ (step demoI demoT st2 (.claimv 2)).2 = .ok ∧
+     (let st3 := run demoI demoT st2 [.claimv 2, .chown 2 1, .time 1]
+      (step demoI demoT st3 (.claimv 2)).2 = .denied ∧ (step demoI demoT st3 (.claimv 1)).2 = .ok ∧
+      (run demoI demoT st3 [.claimv 1]).plan.map (fun p => (p.vest.amount, p.vest.claimed)) = some (3000000000000000000, 3000000000000000000))) := by
+  decide
 
 /-- nothing is released before the vesting start -/
 theorem vesting_nothing_before_start {I T cfg st} (h : Reach I T cfg st) (p : Plan) (hp : st.plan = some p)
